@@ -78,7 +78,7 @@ type sinkInfo struct {
 	memMu        sync.Mutex
 	members      [][]string // channel: members of every composite received
 	fs           *eventlogger.FileSink
-	afterEncrypt bool // every pipeline feeding this sink has the encrypt filter before its formatter
+	afterEncrypt bool         // every pipeline feeding this sink has the encrypt filter before its formatter
 	encLayers    map[int]bool // numbers of encrypt filters in the pipelines feeding this sink
 }
 
